@@ -97,3 +97,39 @@ def unit_generated_tokens():
                                            "builtin:tokenize.ISEOF": m_iseof},
                 "assumptions": ["tokenize.ISEOF(t) is t == token.ENDMARKER (stdlib definition)", "list(iterator of tokens) is the sequence of the tokens (A-ITER)"]}
     return ProofUnit("_tools.generated_tokens", "generated_tokens: the tokenizer's tokens in order, minus the synthetic NEWLINE directly before the end marker", ["C01", "C02", "C09"], make, None)
+
+
+def unit_validated_python_name():
+    def setup(ex, st):
+        T, c = fresh(UFList(TOKEN), "T"); st.pc.extend(c)
+        n = fresh(INT, "n")[0]; st.pc.append(n.z >= 0); st.pc.append(T.length == n.z + 1); st.pc.append(ttype(T.at(n.z)) == TK.ENDMARKER)      # A-TOK: ends in exactly one ENDMARKER
+        j = z3.Int("j"); st.pc.append(z3.ForAll([j], z3.Implies(z3.And(0 <= j, j < n.z), ttype(T.at(j)) != TK.ENDMARKER)))
+        value = fresh(STR, "value")[0]
+        st.frames[-1].env.update({"name": "field type part", "value": value}); st.ghost.update({"T": T, "n": n, "value": value, "tok_failed": False, "started": False})
+    def m_generated(ex, st, fn, args, kw):
+        strip = ex.absfun_s("str_strip", [z3.StringSort()], z3.StringSort())
+        ex.obligations.append(Obligation("tokenizes-the-stripped-value", st.pc, lift(args[0]).z == strip(G(st, "value")), "post", props=["C09"]))
+        it = Ref("TokenIter"); st.heap[it.oid] = {"cursor": 0}; yield st, it
+    def tok_next(ex, st, recv, args, kw):
+        o = st.heap[recv.oid]; T = st.ghost["T"]; c = lift(o["cursor"]).z
+        if not st.ghost["started"]:
+            for cls in ("TokenError", "SyntaxError"):
+                sb = st.copy(); sb.ghost["tok_failed"] = True; yield sb, Raise(ex.new_builtin_exc(sb, cls, ["tokenizer"]))
+        st.ghost["started"] = True
+        if feasible(st.pc, c >= T.length):
+            sb = st.copy(); sb.pc.append(c >= T.length); yield sb, Raise(ex.new_builtin_exc(sb, "StopIteration", []))
+        st.pc.append(z3.And(c >= 0, c < T.length)); o["cursor"] = Sym(INT, c + 1)
+        yield st, Sym(TOKEN, T.at(c))
+    def m_iseof(ex, st, fn, args, kw): yield st, Sym(BOOL, lift(args[0]).z == TK.ENDMARKER)
+    def single_name(st):
+        T = st.ghost["T"]; n = G(st, "n")
+        return z3.And(n >= 1, ttype(T.at(0)) == TK.NAME, z3.Or(n == 1, z3.And(n == 2, ttype(T.at(1)) == TK.NEWLINE, ttext(T.at(1)) == "")))
+    def make(ctx):
+        c = Contract("_tools.validated_python_name", setup,
+                returns=[Clause(lambda ex, st: Sym(BOOL, z3.And(single_name(st), lift(st.ghost["__result__"]).z == ttext(st.ghost["T"].at(0)))), "accepted-only-a-single-NAME-token-(optionally-followed-by-the-synthetic-newline)-and-returns-its-text", props=["C09"])],
+                raises={"NameError": [Clause(lambda ex, st: Sym(BOOL, z3.Or(z3.BoolVal(bool(st.ghost["tok_failed"])), z3.Not(single_name(st)))), "refused-only-if-the-value-is-not-one-name", props=["C09"])]},
+                expect=["return", "NameError"], raises_only_props=["C09", "C10"])
+        return {"contract": c, "callees": {"_tools.generated_tokens": ModelContract(m_generated), "ref:TokenIter.__next__": tok_next, "builtin:tokenize.ISEOF": m_iseof},
+                "assumptions": ["A-TOK: generated_tokens(text) delivers a finite token sequence ending in exactly one ENDMARKER, or raises TokenError / SyntaxError at the first next()",
+                                "tokenize.ISEOF(t) is t == token.ENDMARKER (stdlib definition)"]}
+    return ProofUnit("_tools.validated_python_name", "validated_python_name: exactly one NAME token, returned as is; anything else is a NameError (converted to InterfaceError by add_field_format_row)", ["C09", "C10"], make, None)
